@@ -1,5 +1,5 @@
 """C15 — complement operations and the complement-TU test."""
-import vlib
+import vlib, gen
 from vlib import mat_line, all_matrices, rand_matrix
 
 RULE = ("all 0/1 matrices of every shape with m*n <= bound x all (row, column) choices incl. 'none' for "
@@ -16,6 +16,10 @@ CODES = {1: "record malformed / returned matrix not a well-formed CSR", 10: "com
 
 
 def run(ctx):
+    import clilib
+    clilib.stream(ctx, "cliverdict", gen.cliverdict_lines(ctx.rng.fork("cliverdict"), 6, 1, 400 if ctx.quick else 8000, (0, 1), 4, 4, 12, False),
+                  "cmr-ctu: verdict line vs. the definition-level oracle on the matrix parsed from the input bytes",
+                  lambda c: gen.CLIVERDICT_CODES.get(c, str(c)))
     bound = 9 if ctx.quick else 12
     lines = []
     shapes = [(m, n) for m in range(0, 5) for n in range(0, 5) if m * n <= bound]
